@@ -2,10 +2,6 @@ HOOK_COMMITS = ["c8f347152", "b47eca310"]
 # properties whose check the lead has run on the unchanged tree and accepted (fragments of other checks are ignored)
 READY = ["C01", "C02", "C03", "C04", "C05", "C06", "C07", "C08", "C09", "C10", "C11", "C12", "C13", "C14", "C15", "C16", "C17", "C18", "C19", "C20"]
 CHECKS = [
- {"property_id": "C01",
-  "text": "TLC proves the partition theorems (unique in-plane preimage, Michelogram partition, pair count per bin, detector exchange negates TOF, uncompressed bijection, closed-form ring-pair sets) of spec/Geometry.tla exhaustively for every small configuration; every answer recorded from the real ProjDataInfoCylindricalNoArcCorr / ProjDataInfoBlocksOnCylindricalNoArcCorr objects (all pairs of small generated scanners, samples of the whole scanner database and of rings up to 1000 detectors) must be explained by that specification in TLC trace validation.",
-  "note": "Trusted: TLC, the ndjson recording in harness/c01_geometry.cxx (records only), uniqueness theorem T1 extrapolated beyond the model-checked N. Blocks/Generic restricted to span 1, unmashed, non-TOF (documented restriction of those classes). One known finding (C01-truncseg).",
-  "technique": "TLA+ specification + TLC model checking + TLC trace validation of recorded implementation answers"},
-]
+]  # all per-property texts now live in checks/*.manifest.json
 _pending = "check not built yet in this session (specification not yet bound to the implementation); see DESIGN.md section 13"
 NOT_APPLICABLE = [{"property_id": "C%02d" % i, "reason": _pending} for i in range(1, 21) if "C%02d" % i not in {c["property_id"] for c in CHECKS}]
